@@ -23,6 +23,15 @@ for mm in re.finditer(r"check_(C\d+) exit=(\d+) (\d+) violation lines; ?(.*)", r
         checks[mm.group(1)]["by"] = sorted({"bounded stand-in" if re.match(r"C\d\d_", n) else "proof obligation" for n in names})
     except OSError:
         pass
+def _tests_from_log():
+    try:
+        last = open(f"/tmp/mut/results/{pid}-{m}.tests.log").read().strip().splitlines()[-1]
+        rt = grab(r"retest_exit=\d+ (.*)", None)
+        return last + " (full suite run of the first evaluation of this change)" + (f"; the one failing test re-run alone: {rt}" if rt else "")
+    except OSError:
+        return "not re-run in this evaluation (see note)"
+
+
 extra = json.loads(sys.argv[5]) if len(sys.argv) > 5 else {}
 meta = {
     "id": f"{pid}-{m}",
@@ -35,7 +44,7 @@ meta = {
                "full test suite on the patched tree (pytest -n 8), then the listed checks with VERIF_REPO=<patched worktree>",
         "demo_exit_clean_tree": int(grab(r"demo_clean_exit=(\d+)", -1)),
         "demo_exit_patched_tree": int(grab(r"demo_patched_exit=(\d+)", -1)),
-        "test_suite_patched": grab(r"tests_exit=\d+ (.*)", "not re-run in this evaluation (see note)"),
+        "test_suite_patched": (grab(r"tests_exit=\d+ (.*)", None) + (f"; test_all_instances_tokenizerelement (memory-hungry, fails under load on the unchanged tree too) re-run alone: {grab(r'retest_exit=[0-9]+ (.*)', '')}" if grab(r"retest_exit=\d+ (.*)", None) else "")) if grab(r"tests_exit=\d+ (.*)", None) else _tests_from_log(),
     },
     "checks_run_against_it": checks,
     "detected": any(c["exit"] == 1 and c["violation_lines"] > 0 for c in checks.values()),
